@@ -523,9 +523,18 @@ type OutCol struct {
 	Modifier float64
 }
 
-func outputConfigYAML(cols []OutCol, header bool) string {
+func outputConfigYAML(cols []OutCol, header bool, sepFill ...string) string {
 	var b strings.Builder
-	b.WriteString("FillCharacter: ' '\nSeperatorCharacter: ','\nNaValue: n.a.\nDataColumns:\n")
+	sep, fill := ",", " "
+	if len(sepFill) == 2 {
+		if sepFill[0] != "" {
+			sep = sepFill[0]
+		}
+		if sepFill[1] != "" {
+			fill = sepFill[1]
+		}
+	}
+	b.WriteString("FillCharacter: '" + fill + "'\nSeperatorCharacter: '" + sep + "'\nNaValue: n.a.\nDataColumns:\n")
 	for _, c := range cols {
 		f := c.Fmt
 		if f == "" {
@@ -593,6 +602,7 @@ seperatorrune: 32
 
 // OutputCfg selects the columns of the generated output configurations.
 type OutputCfg struct {
+	Sep, Fill string // separator (CSV style) and fill character (fixed-width style); "" = ',' and ' '
 	Daily  []OutCol
 	Yearly []OutCol
 	Crop   []OutCol
@@ -630,11 +640,11 @@ func (w *World) Files(oc *OutputCfg, ww *WeatherWorld) FileSet {
 		d := defaultOutputCfg()
 		oc = &d
 	}
-	fs[pdir+"dailyout_conf.yml"] = outputConfigYAML(oc.Daily, true)
-	fs[pdir+"yearlyout_conf.yml"] = outputConfigYAML(oc.Yearly, true)
-	fs[pdir+"cropout_conf.yml"] = outputConfigYAML(oc.Crop, true)
+	fs[pdir+"dailyout_conf.yml"] = outputConfigYAML(oc.Daily, true, oc.Sep, oc.Fill)
+	fs[pdir+"yearlyout_conf.yml"] = outputConfigYAML(oc.Yearly, true, oc.Sep, oc.Fill)
+	fs[pdir+"cropout_conf.yml"] = outputConfigYAML(oc.Crop, true, oc.Sep, oc.Fill)
 	if len(oc.PF) > 0 {
-		fs[pdir+"pfout_conf.yml"] = outputConfigYAML(oc.PF, true)
+		fs[pdir+"pfout_conf.yml"] = outputConfigYAML(oc.PF, true, oc.Sep, oc.Fill)
 	}
 	fs[pdir+"managementout_conf.yml"] = mgmtOutYAML
 	if ww != nil {
